@@ -1,2 +1,14 @@
 (* C06 — the property theorems about the scheduler model, and nothing else. *)
 From VF Require Import Sched.Proofs.
+Open Scope Z_scope.
+
+(* operation.maybeStartCleanup on a registered operation nobody waits on and
+   whose existence the client knows of: removal is scheduled at
+   now + OperationWithNoWaitersTimeout. *)
+Theorem maybe_start_cleanup_arms : forall s o,
+  op_alive s o = true -> o_waiters (get_op s o) = O -> o_mayexist (get_op s o) = false ->
+  o_cleanup (get_op s o) = None ->
+  o_cleanup (get_op (maybe_start_cleanup o s) o) = Some (s_now s + cf_nowaiters (s_cfg s))
+  /\ s_out (maybe_start_cleanup o s) = s_out s.
+Proof. exact maybe_start_cleanup_arms. Qed.
+Print Assumptions maybe_start_cleanup_arms.
